@@ -808,8 +808,12 @@ class ChunkParser:
         """
         chunk = self.text
         chunk_layout = self.layout
-        if chunk_layout != COPY_ALL and not self.parent.mandate_layout:
-            chunk_layout = deduce_layout(chunk)
+        if chunk_layout != COPY_ALL:
+            if self.parent.mandate_layout:
+                # Use the layout dictated to the parent PLSSParser.
+                chunk_layout = self.parent.layout
+            else:
+                chunk_layout = deduce_layout(chunk)
         self.find_matches(chunk, chunk_layout)
         self.populate_markers(chunk)
 
